@@ -201,6 +201,12 @@ theorem step_inv13 (c : WCfg) (scale : Int → Int) (s : SW) (op : WOp) (h : Inv
   cases op with
   | write r => exact write_inv13 c scale s r h h13
   | rotate => exact close_inv13 c s h h13
+  | failed r =>
+    show Inv13 c (writeFailed c scale s r).1
+    rw [writeFailed_eq]
+    cases fitClose c scale s r.decl with
+    | none => exact h13
+    | some cl => exact ready_inv13 c s cl r.infoBytes h h13
 
 theorem run_inv13 (c : WCfg) (scale : Int → Int) (ops : List WOp) : Inv13 c (run c scale SW.init ops).1 := by
   suffices ∀ s, C04.Inv s → Inv13 c s → Inv13 c (run c scale s ops).1 from this _ inv_init (inv13_init c)
